@@ -594,6 +594,9 @@ func processStatementColon(tree *ParserT, exec bool) error {
 			return tree.nextParameter()
 		} else {
 			// is a cast
+			if tree.charPos+1 >= len(tree.expression) {
+				return raiseError(tree.expression, nil, tree.charPos, "expecting a data type after ':'")
+			}
 			tree.charPos++
 			tree.statement.cast = tree.parseBareword()
 		}
